@@ -129,6 +129,24 @@ func Bytes(name string, n int) []byte {
 // String returns a string of n fresh symbolic bytes.
 func String(name string, n int) string { return string(Bytes(name, n)) }
 
+// KeyIndex splits a key of the form <prefix><decimal number> (as produced by
+// fmt.Sprintf("x%d", n)) into its prefix and number. Under the engine the
+// number is the formatted value itself (the string is not rendered).
+func KeyIndex(key string) (prefix string, idx uint64, ok bool) {
+	i := len(key)
+	for i > 0 && key[i-1] >= '0' && key[i-1] <= '9' {
+		i--
+	}
+	if i == len(key) || len(key)-i > 18 {
+		return "", 0, false
+	}
+	var n uint64
+	for _, ch := range key[i:] {
+		n = n*10 + uint64(ch-'0')
+	}
+	return key[:i], n, true
+}
+
 // Param returns a per-tier parameter of the check configuration.
 func Param(name string, def int) int {
 	load()
